@@ -564,6 +564,17 @@ def r4_cr(rep, facts):
         raw_write = any(n.get('k') == 'mcall' and n.get('name') in ('to_str_with_default', 'to_str', 'as_str') for n in walk(b2['body']))
         rep.check(R, d + '|via-encode', bool(via) and not raw_write, 'writes the stored text through RawString::encode_with_default',
                   f'`{d}` writes decor text without RawString::encode_with_default: carriage returns of a CRLF document survive in this fragment while every other one is normalised', facts.loc(b2))
+    # ... and so does the printer itself: nothing in the encoder or in a Display impl takes the text of a RawString out (`as_str`, `to_str`) to write it directly
+    n_scanned = 0
+    for d, b2 in sorted(facts.bodies.items()):
+        if not (d.startswith('toml_edit::encode::') or (d.startswith('<toml_edit::') and ' as core::fmt::Display>::fmt' in d)):
+            continue
+        n_scanned += 1
+        direct = [n for n in walk(b2['body']) if n.get('k') == 'mcall' and n.get('name') in ('as_str', 'to_str', 'to_str_with_default') and 'RawString' in (peel(n['recv']).get('t') or '')]
+        if direct:
+            rep.bad(R, f'{d}|raw-text-taken-out', f'`{d}` takes the text of a RawString out with `{direct[0]["name"]}` instead of writing it through RawString::encode*: the carriage returns of a '
+                    f'CRLF document survive in this fragment while every other one is normalised', facts.loc(b2, direct[0]))
+    rep.check(R, 'printer|scanned', n_scanned >= 10, f'{n_scanned} encoder functions / Display impls write raw fragments only through RawString::encode*', f'only {n_scanned} printer functions found')
     exp = {'toml_edit::raw_string::RawString::encode', 'toml_edit::raw_string::RawString::encode_with_default'}
     for d in sorted(set(found) | exp):
         rep.check(R, f'{d}|cr-writer', d in exp and d in found, "splits on '\\r'",
@@ -586,6 +597,11 @@ def rules(rep, facts):
     r3_header_order(rep, facts)
     r1d_initial_state(rep, facts)
     r4_cr(rep, facts)
+    R6 = rep.rule('C03/R6', 'every table that has something to print gets its header, and its rows follow it (visit_table evaluated with the writes recorded: explicit / implicit tables holding '
+                  'nothing, a value, dotted-key values only or a sub-table only, at the root and under a path, as `[table]` and as `[[table]]` element) — rows printed without their header '
+                  'land in another table and the document no longer reads back as itself', floor=30)
+    from .shared import visit_table_model
+    visit_table_model(rep, R6, facts)
 
 
 def _witnesses(rep):
